@@ -2,6 +2,7 @@ package exec
 
 import (
 	"fmt"
+	"go/types"
 	"strings"
 
 	"golang.org/x/tools/go/ssa"
@@ -149,6 +150,43 @@ func (e *Engine) intrinsic(name string) stubFn {
 	case "vrf_ite_str":
 		return func(m *Machine, c *frame, fn *ssa.Function, a []Value) Value {
 			return sym.Ite(m.term(a[0]), m.term(a[1]), m.term(a[2]))
+		}
+	case "vrf_rpc_authorize":
+		// vrf_rpc_authorize(s *rpc.Server, pid peer.ID, svc, method string) bool:
+		// calls the authorisation function installed in the server, as gorpc does
+		// for every remote request.
+		return func(m *Machine, c *frame, fn *ssa.Function, a []Value) Value {
+			p := m.deref(c, a[0])
+			st := (*p).(Struct)
+			T := m.eng.nativeType(rpcPkg + ".Server").Underlying().(*types.Struct)
+			for i := 0; i < T.NumFields(); i++ {
+				if T.Field(i).Name() == "authorize" {
+					f := st[i]
+					if isNilValue(f) {
+						return sym.True() // gorpc: no authorisation function = allow
+					}
+					return m.call(c, 0, f, []Value{a[1], a[2], a[3]})
+				}
+			}
+			m.unsupported("rpc.Server has no authorize field")
+			return nil
+		}
+	case "vrf_rpc_method_names":
+		// vrf_rpc_method_names(rcvr interface{}) []string: exported methods with the
+		// gorpc signature func(ctx, in, *out) error, as gorpc's Register enumerates them
+		return func(m *Machine, c *frame, fn *ssa.Function, a []Value) Value {
+			itf := a[0].(Iface)
+			ms := m.eng.prog.MethodSets.MethodSet(itf.T)
+			var out []Value
+			for i := 0; i < ms.Len(); i++ {
+				f := ms.At(i).Obj().(*types.Func)
+				sig := f.Type().(*types.Signature)
+				if !f.Exported() || sig.Params().Len() != 3 || sig.Results().Len() != 1 {
+					continue
+				}
+				out = append(out, sym.Str(f.Name()))
+			}
+			return out
 		}
 	case "vrf_now":
 		return func(m *Machine, c *frame, fn *ssa.Function, a []Value) Value { return m.nowTerm() }
